@@ -191,6 +191,12 @@ func runC11(ctx *Ctx) {
 			ops = append(ops, &POp{Op: "connect", Node: h, Host: true, Kind: "geth"})
 		}
 		ops = append(ops, &POp{Op: "connect", Node: "c1", Kind: "geth"})
+		// in half of the histories another client is around and asks for hosts now and then, and a
+		// host's registering connection may go away while the host keeps checking in
+		others := rng.Intn(2) == 0
+		if others {
+			ops = append(ops, &POp{Op: "connect", Node: "c2", Kind: "geth"})
+		}
 		rounds := 4 + rng.Intn(8)
 		for r := 0; r < rounds; r++ {
 			var rep []string
@@ -209,6 +215,12 @@ func runC11(ctx *Ctx) {
 				if rng.Intn(3) != 0 { // the host itself checks in
 					ops = append(ops, &POp{Op: "update", Node: h, Block: uint64(r)})
 				}
+			}
+			if others && rng.Intn(4) == 0 {
+				ops = append(ops, &POp{Op: "hangup", Node: []string{"h1", "h2", "h3"}[rng.Intn(3)]})
+			}
+			if others && rng.Intn(2) == 0 {
+				ops = append(ops, &POp{Op: "peer", Node: "c2", Num: 1 + rng.Intn(3), Kind: []string{"geth", ""}[rng.Intn(2)]})
 			}
 			ops = append(ops, &POp{Op: "update", Node: "c1", Peers: rep, Block: uint64(r), Elapsed: 1e9})
 			if rng.Intn(3) == 0 {
